@@ -6,6 +6,7 @@ import os
 from tfv import core
 from tfv.core import Violation, run_async
 from tfv.data import RefProvider, Tree
+from tfv.gen import add_schema_directive
 from tfv.impl import Harness, RequestState, clean_registry, nid_of  # noqa: F401 (clean_registry re-exported)
 from tfv.model import canon, print_document
 from tfv.mutate import mutants
@@ -31,6 +32,7 @@ RULE = (
     "the iteration ends with the source; invalid requests yield exactly one errors-only response and never start the source. "
     "Distinct = SHA-1 of (document, variables, events, pattern); non-trivial = >= 3 events with a failing one in the middle, or an "
     "interleaved / alternating consumption pattern."
+    " In 30% of the cases a pass-through directive on the schema (on_schema_subscription, forwarding by keyword) wraps the subscription."
 )
 ASSUMPTIONS = c01.ASSUMPTIONS
 DOC_OPTS = {"max_nodes": 8, "max_frags": 2, "max_sels": 3, "max_depth": 3, "max_ops": 1, "op_types": ["subscription"]}
@@ -248,6 +250,8 @@ def run_alternate(h, schema, spec_a, spec_b, order):
 
 def case(c, stats):
     schema, plan = c01.build_schema(c, {"subscription": True, "max_objects": 3})
+    if c.maybe(30):
+        add_schema_directive(schema)  # a pass-through directive on the schema wraps every subscription
     plan["default_fields"] = []  # every field harness-resolved, so failures can be planted anywhere
     clean_registry()
     h = SubHarness(schema, plan, None)
